@@ -83,28 +83,77 @@ def tieMask (q : Req) : String :=
       b2i (ellipsoidTie q.nx q.ny q.nz cx cy cz ox oy oz i j k || ellipsoidTie q.nx q.ny q.nz cx cy cz ix iy iz i j k))
   | _ => ""
 
-def shapeJson (q : Req) : Json :=
+/-- 1-D weights of `scipy.ndimage.gaussian_filter1d`: `exp(-t²/2σ²)` over `-R … R`, divided by their sum -/
+def gaussTable (sigma : Float) (R : Nat) : Array Float :=
+  let raw : Array Float := (Array.range (2 * R + 1)).map fun t =>
+    let x : Float := (Float.ofNat t) - (Float.ofNat R)
+    Float.exp (-0.5 / (sigma * sigma) * (x * x))
+  let tot := raw.foldl (· + ·) 0.0
+  raw.map (· / tot)
+
+def ratToFloat (q : Rat) : Float := Float.ofInt q.num / Float.ofNat q.den
+
+/-- the model of `add_gaussian` evaluated at the requested voxels: `blurAt` of `Model/C13.lean` with the
+Gaussian weights, applied to the model's own pre-blur mask -/
+def blurProbe (q : Req) (m : List Int) (probe : List (Int × Int × Int)) : List Float :=
+  let arr : Array Float := (m.map fun v => Float.ofInt v).toArray
+  let R := kernelRadius q.gauss
+  let tbl := gaussTable (ratToFloat q.gauss) R
+  let w1 : Int → Float := fun t => tbl.getD (t + (R : Int)).toNat 0.0
+  let x : Int → Int → Int → Float := fun i j k => arr.getD (((i.toNat * q.ny + j.toNat) * q.nz) + k.toNat) 0.0
+  probe.map fun (i, j, k) => blurAt q.nx q.ny q.nz R w1 x i j k
+
+def shapeJson (q : Req) (probe : List (Int × Int × Int) := []) : Json :=
   match hardMask q, (if q.gauss = 0 then hardMask q else hardMask { q with gauss := 0 }) with
   | some m, some core =>
-    Json.mkObj [("box", Json.arr #[q.nx, q.ny, q.nz]), ("mask", Json.str (encode m)), ("core", Json.str (encode core)),
+    let base := [("box", Json.arr #[q.nx, q.ny, q.nz]), ("mask", Json.str (encode m)), ("core", Json.str (encode core)),
                 ("ties", Json.str (tieMask q))]
-  | _, _ => err "reject:centre-outside-box"
+    let extra := if q.gauss = 0 || probe.isEmpty then [] else
+      [("blur", Json.arr ((blurProbe q m probe).map fun x => (bitsOfFloat x : Json)).toArray),
+       ("kernel_radius", (kernelRadius q.gauss : Json))]
+    Json.mkObj (base ++ extra)
+  | _, _ => err "reject:centre-index-error"
+
+def probe? (j : Json) : List (Int × Int × Int) :=
+  match field? j "probe" with
+  | some (Json.arr vs) => vs.toList.filterMap int3?
+  | _ => []
 
 def parseMasks (a : Array Json) : Option (List (List Float)) :=
   a.toList.mapM fun m => match m with
     | Json.arr vs => vs.toList.mapM fun v => (nat? v).map floatOfBits
     | _ => none
 
-def outJson (o : Option (List Float)) : Json :=
+/-- the statement's Boolean combination, voxel by voxel, when every input value is 0 or 1 (`specVox`) -/
+def specString (fn : String) (ms : List (List Float)) : Option String :=
+  if ms.isEmpty || !sameShape ms || !(ms.all fun m => m.all fun v => v == 0.0 || v == 1.0) then none else
+  let n := (ms.headD []).length
+  let col (p : Nat) : List Bool := ms.map fun m => m.getD p 0.0 == 1.0
+  (((List.range n).mapM fun p => specVox fn (col p))).map fun bs => String.ofList (bs.map fun b => if b then '1' else '0')
+
+def outJson (fn : String) (ms : List (List Float)) (o : Option (List Float)) : Json :=
   match o with
-  | some l => Json.mkObj [("out", Json.arr (l.map fun x => (bitsOfFloat x : Json)).toArray)]
-  | none => err "reject:empty-or-shape-mismatch"
+  | some l =>
+    Json.mkObj ([("out", Json.arr (l.map fun x => (bitsOfFloat x : Json)).toArray)] ++
+      (match specString fn ms with | some s => [("spec", Json.str s)] | none => []))
+  | none => if ms.isEmpty then err "reject:empty-list" else err "domain:shapes-differ"
+
+def kindName (k : Kind) : String :=
+  match k with
+  | .sphere => "sphere" | .cylinder => "cylinder" | .ellipsoid => "ellipsoid" | .sshell => "s_shell" | .eshell => "e_shell"
+
+def parseJson (name : String) : Json :=
+  match parseShape name.toList with
+  | some (k, specs) =>
+    Json.mkObj [("kind", Json.str (kindName k)), ("specs", Json.arr (specs.map fun (n : Nat) => (n : Json)).toArray),
+                ("format", match formatShape k specs with | some cs => Json.str (String.ofList cs) | none => Json.null)]
+  | none => err "reject:no-pattern"
 
 def handle (j : Json) : Json :=
   match getStr? j "op" with
   | some "shape" =>
     match parseReq j with
-    | some q => shapeJson q
+    | some q => shapeJson q (probe? j)
     | none => err "bad-args"
   | some "generate" =>
     match getStr? j "kind" >>= kind?, getArr? j "specs" >>= (fun a => a.toList.mapM nat?), opt? j "mask_size" nat?, getNat? j "expansion" with
@@ -115,11 +164,15 @@ def handle (j : Json) : Json :=
     | _, _, _, _ => err "bad-args"
   | some "algebra" =>
     match getStr? j "fn", getArr? j "masks" >>= parseMasks with
-    | some "union", some ms => outJson (union ms)
-    | some "intersection", some ms => outJson (intersection ms)
-    | some "subtraction", some ms => outJson (subtraction ms)
-    | some "difference", some ms => outJson (difference ms)
+    | some "union", some ms => outJson "union" ms (union ms)
+    | some "intersection", some ms => outJson "intersection" ms (intersection ms)
+    | some "subtraction", some ms => outJson "subtraction" ms (subtraction ms)
+    | some "difference", some ms => outJson "difference" ms (difference ms)
     | _, _ => err "bad-args"
+  | some "parse" =>
+    match getStr? j "name" with
+    | some name => parseJson name
+    | none => err "bad-args"
   | _ => err "bad-op"
 
 end CryoCat.Drv.C13
